@@ -48,7 +48,7 @@ def gen_valid_i(rng, threads=False):
 
 def _gen_valid_i(rng, threads=False):
     """-> dict(native=scenario, builder=native builder, imports=[dict(base, schema, builder, conns, file)])"""
-    n_imp = rng.choice([1, 1, 2])
+    n_imp = rng.choice([1, 2, 2])
     imports = []
     for k in range(n_imp):
         isc, ib = S.gen_valid(rng, rng.choice([2, 3, 4]), threads=(threads and rng.random() < 0.4), builder=True)
@@ -178,7 +178,8 @@ def imut(f):
 @imut
 def imported_schema_invalid(rng, case):
     imp = rng.choice(case["imports"])
-    names = [n for n in sorted(M.MUTATORS) if n not in M.THREAD_ONLY]
+    # (faults that only show when references are spelled alike are left out: the imported file is rendered with mixed spelling)
+    names = [n for n in sorted(M.MUTATORS) if n not in M.THREAD_ONLY and n not in M.FORCE_ID_SPELLING and not n.startswith("p_")]
     for _ in range(30):
         name = rng.choice(names)
         s2 = copy.deepcopy(imp["schema"])
@@ -217,6 +218,21 @@ def connection_target_native(rng, case):
     a = rng.choice(case["native"]["actions"])
     imp["conns"].append({"to": ("action", 950), "add": add, "render_native_target": ("action", a["id"])})
     return "connection target is a native action"
+
+
+@imut
+def connection_target_in_other_import(rng, case):
+    """a connection listed under one import whose to_ref points into ANOTHER loaded import"""
+    if len(case["imports"]) < 2:
+        return None
+    imp, other = rng.sample(case["imports"], 2)
+    tgt = _some_target(rng, other)
+    if tgt is None:
+        return None
+    add = _fresh_native_cp(rng, case)
+    # for the model: the target is not in this import's schema; for the renderer: spell it inside the other import
+    imp["conns"].append({"to": (tgt[0], 950), "add": add, "render_native_target": (tgt[0], other["base"] + tgt[1])})
+    return "connection target belongs to a different imported schema than the import entry it is listed under"
 
 
 @imut
